@@ -239,22 +239,6 @@ theorem nary_checkers (W : World) (cs : List Checker) (st : LocStack) (hw : ∀ 
 
 /-! ## the documented identities, for all stacks (empty one included) -/
 
-/-- names for which `pattern.<name>` reaches `__getattr__` (not an attribute of the class, not a dunder) -/
-def plainName (n : String) : Prop :=
-  n ≠ "ANY" ∧ Generated.patternAttrs.contains n = false ∧ isDunder n = false
-
-/-- **`P['n'] == P.n`** (for any pattern prefix `p`, not only `P`): the two expressions evaluate to the same
-    value, hence to the same checker with the same answer on every stack. -/
-theorem patGetattr_plain (W : World) (stack : List Checker) (n : String) (hn : plainName n) :
-    patGetattr W stack n = patGetitem W stack (.str n) := by
-  obtain ⟨h1, h2, h3⟩ := hn
-  have c1 : ¬ ((n == "ANY") = true ∧ stack.isEmpty = true) := fun h => h1 (by simpa using h.1)
-  have c2 : ¬ ((n != "ANY") = true ∧ Generated.patternAttrs.contains n = true) := fun h => by
-    rw [h2] at h; exact absurd h.2 (by simp)
-  have c3 : ¬ (isDunder n = true) := by rw [h3]; simp
-  unfold patGetattr
-  rw [if_neg c1, if_neg c2, if_neg c3]
-
 theorem identity_getitem_getattr (W : World) (p : Expr) (n : String) (hn : plainName n) :
     eval W (.getattr p n) = eval W (.getitem p (.str n)) := by
   simp only [eval, patGetattr_plain W _ n hn]
